@@ -495,6 +495,12 @@ class Directory(object):
     def unregister_computation(self, computation: ComputationName,
                                agent: AgentName=None):
         try:
+            if agent is not None and \
+                    self._computations_data[computation] != agent:
+                # Stale un-publication from a previous host: the computation
+                # has been registered by another agent in the meantime
+                # (e.g. re-hosted after its agent left), keep it.
+                return
             self._computations_data.pop(computation)
             self.discovery.unregister_computation(computation)
         except (KeyError, UnknownComputation):
